@@ -380,6 +380,9 @@ func premLoadImportsSelect(c *Ctx) (bool, string) {
 //   for len(M) > 0 { K, F := ..; for _, k := range S { ...; K, F = k, true; break }; if !F { return }; ... delete(M, K) ...; idx := slices.Index(S, K); S = slices.Delete(S, idx, idx+1) }
 // and returns "" when it holds, else what is missing.
 func (c *Ctx) selectionDrain(loop *ast.ForStmt) string {
+	if c.selectionDrainIndexed(loop) == "" {
+		return ""
+	}
 	list := loop.Body.List
 	var rng *ast.RangeStmt
 	rngIdx := -1
@@ -729,4 +732,71 @@ func premPosKeys(c *Ctx) (bool, string) {
 		}
 	}
 	return true, ""
+}
+
+// selectionDrainIndexed accepts the equivalent shape
+//   for len(M) > 0 { idx := slices.IndexFunc(S, pred) | slices.Index(S, x); if idx < 0 { return ... }; K := S[idx]; ...; S = slices.Delete(S, idx, idx+1) }
+func (c *Ctx) selectionDrainIndexed(loop *ast.ForStmt) string {
+	list := loop.Body.List
+	idxVar, S := "", ""
+	at := -1
+	for i, st := range list {
+		as, ok := st.(*ast.AssignStmt)
+		if !ok || len(as.Lhs) != 1 || len(as.Rhs) != 1 {
+			continue
+		}
+		call, ok := unparen(as.Rhs[0]).(*ast.CallExpr)
+		if !ok {
+			continue
+		}
+		cn := c.CalleeName(call)
+		if (strings.HasSuffix(cn, "slices.IndexFunc") || strings.HasSuffix(cn, "slices.Index")) && len(call.Args) == 2 {
+			idxVar, S, at = c.Src(as.Lhs[0]), c.Src(call.Args[0]), i
+			break
+		}
+	}
+	if at < 0 {
+		return "no indexed selection"
+	}
+	// directly followed by: if idx < 0 { return ... }
+	if at+1 >= len(list) {
+		return "selection is not followed by a not-found test"
+	}
+	ifs, ok := list[at+1].(*ast.IfStmt)
+	if !ok || !terminating(ifs.Body) {
+		return "selection is not followed by `if " + idxVar + " < 0 { return ... }`"
+	}
+	if _, isRet := ifs.Body.List[len(ifs.Body.List)-1].(*ast.ReturnStmt); !isRet {
+		return "the not-found branch does not return"
+	}
+	be, ok := unparen(ifs.Cond).(*ast.BinaryExpr)
+	if !ok || c.Src(be.X) != idxVar {
+		return "the not-found test does not test " + idxVar
+	}
+	k, isK := c.ConstInt(be.Y)
+	if !(isK && (be.Op == token.LSS && k == 0 || be.Op == token.EQL && k == -1 || be.Op == token.LEQ && k == -1)) {
+		return "the not-found test is not `" + idxVar + " < 0`"
+	}
+	// S = slices.Delete(S, idx, idx+1) at top level afterwards, idx not reassigned
+	shr := false
+	for _, st := range list[at+2:] {
+		as, ok := st.(*ast.AssignStmt)
+		if !ok || len(as.Rhs) != 1 {
+			continue
+		}
+		if c.Src(as.Lhs[0]) == idxVar {
+			return idxVar + " is reassigned before the deletion"
+		}
+		if c.Src(as.Lhs[0]) != S {
+			continue
+		}
+		call, ok := unparen(as.Rhs[0]).(*ast.CallExpr)
+		if ok && strings.HasSuffix(c.CalleeName(call), "slices.Delete") && len(call.Args) == 3 && c.Src(call.Args[0]) == S && c.Src(call.Args[1]) == idxVar && nosp(c.Src(call.Args[2])) == nosp(idxVar+"+1") {
+			shr = true
+		}
+	}
+	if !shr {
+		return "the candidate list is not shrunk at the selected index every iteration"
+	}
+	return ""
 }
